@@ -58,7 +58,9 @@ def gen_two_level(ctx):
                              "rec": {"seq": vseq, "id": "v%d" % q, "name": "nv", "desc": "d", "features": [], "refs": None}})
             made += 1
             cases.append({"triple": [vname, mname, nname], "q": q, "elements": elements, "order": list(range(q)),
-                          "next": gens.kit_spec(cn), "nenz": nenz, "seed": rng.randrange(1 << 30), "id": "p1", "name": "p1"})
+                          "next": gens.kit_spec(cn), "nenz": nenz, "seed": rng.randrange(1 << 30),
+                          # a cassette is often named after one of its parts
+                          "id": rng.choice(["p1", "p1", "m0"]), "name": "p1"})
     return cases
 
 
@@ -69,7 +71,8 @@ def run_two_level(case):
     ents = annot.build(case["elements"])
     q = case["q"]
     inputs1 = [recutil.dump_record(e.record) for e in ents]
-    obs1, prod1 = implutil.observe_assembly(ents[q], [ents[i] for i in case["order"]], id="p1", name="p1")
+    id1 = case["id"]
+    obs1, prod1 = implutil.observe_assembly(ents[q], [ents[i] for i in case["order"]], id=id1, name="p1")
     if prod1 is None:
         return {"obs1": obs1}
     nxt = implutil.get_class(case["next"])
@@ -97,15 +100,16 @@ def run_two_level(case):
     out["product2"] = view
     W = out["violations9"] = []
     n = len(view["seq"])
-    outer_ids = ["p1", "v2"]
+    outer_ids = [id1, "v2"]
     cover = [0] * n
     outer = []
-    for f in view["features"]:
-        if "plasmid" not in f:
-            continue
-        pid = f["plasmid"][0] if isinstance(f["plasmid"], list) else f["plasmid"]
-        if pid in outer_ids:
-            outer.append((pid, f))
+    gen = C08.generated_sources(view["features"], outer_ids)
+    if sorted(gen.values()) != sorted(outer_ids):
+        W.append({"signature": "C09:two-level:outer-source-missing",
+                  "what": "provenance features naming the level-2 inputs %s: found for %s" % (outer_ids, sorted(gen.values()))})
+    for i, f in enumerate(view["features"]):
+        if i in gen:
+            outer.append((gen[i], f))
             for a, b, _ in f["parts"]:
                 for x in range(a, b):
                     cover[x % n] += 1
@@ -113,17 +117,15 @@ def run_two_level(case):
         W.append({"signature": "C09:two-level:outer-sources-do-not-tile",
                   "what": "provenance features naming the level-2 inputs %s cover the product %s" % ([o[0] for o in outer], cover)})
     spans = {pid: (f["parts"][0][0], f["parts"][-1][1]) for pid, f in outer}
-    for f in view["features"]:
-        if "plasmid" not in f:
+    for i, f in enumerate(view["features"]):
+        if "plasmid" not in f or i in gen:
             continue
         pid = f["plasmid"][0] if isinstance(f["plasmid"], list) else f["plasmid"]
-        if pid in outer_ids:
-            continue
         a, b = f["parts"][0][0], f["parts"][-1][1]
-        if "p1" not in spans or not (spans["p1"][0] <= a and b <= spans["p1"][1]):
+        if id1 not in spans or not (spans[id1][0] <= a and b <= spans[id1][1]):
             W.append({"signature": "C09:two-level:inner-source-not-nested",
-                      "what": "the level-1 provenance feature of %s [%d,%d) is not nested inside the feature naming p1 (%s)"
-                              % (pid, a, b, spans.get("p1"))})
+                      "what": "the level-1 provenance feature of %s [%d,%d) is not nested inside the feature naming %s (%s)"
+                              % (pid, a, b, id1, spans.get(id1))})
     return out
 
 
@@ -140,7 +142,7 @@ def two_level_terms(ctx, case, r):
         e2 = "[" + "; ".join("(%s, %s)" % (gens.c_cls(ctx, sp), recutil.c_record({"seq": d["seq"], "features": [
             dict(f, q=(None if f["type"] == "source" and f.get("q") is None else f.get("q"))) for f in d["features"]]}))
                              for sp, d in zip(specs, r["inputs2"])) + "]"
-        terms.append("(%s, %s)" % (e2, C08.c_product(case, {"product": r["product2"]}, ids=["p1", "v2"])))
+        terms.append("(%s, %s)" % (e2, C08.c_product(case, {"product": r["product2"]}, ids=[case["id"], "v2"])))
     return terms
 
 
